@@ -121,6 +121,8 @@ class Gen:
             choices += ["srb"]
         if rng.random() < 0.15:
             choices += ["apply"]
+        if rng.random() < 0.2:
+            choices += ["update_only"]
         if self.ncommits and rng.random() < 0.15:
             choices += ["reopenat"]
         if self.ncommits and (not self.cache_dirty or not self.disc) and rng.random() < 0.3:
@@ -185,6 +187,11 @@ class Gen:
             t = rng.choice([t for t in self.tokens if t[0] == "S"])
             self.tokens = self.tokens[: self.tokens.index(t) + 1]
             self.emit(["srb", t[1]])
+        elif c == "update_only":
+            # StateDB.Update without Commit (a preview of the root; a second Update follows before Commit).  Every
+            # snapshot taken before it is dead (Update is not undone by a revert: known finding), handles survive it
+            self.tokens = []
+            self.emit(["update"])
         elif c == "apply":
             if self.disc:
                 self.handles = [(ci, False) for ci, _ in self.handles]
@@ -594,6 +601,8 @@ def run(ctx):
                  "setcode", "ssnap", "csnap", "snap", "clear")
         vis, frames, sfr, ahb, hist, codes, hvia, ahcode, ahgen = {}, [], [], [], [], {}, [], {}, {}
         committed, staged, sframes, hs, ctoks = {}, {}, [], [], []
+        unstaged = False            # an Update has run whose values Commit has not staged yet
+        objbase, keep = {}, []      # storage object (by identity of its overlay dict) -> content of its storage trie
         for si, op in enumerate(full):
             if si >= len(of) or of[si].get("p"):
                 break
@@ -630,7 +639,23 @@ def run(ctx):
             # ---- contract storage
             if k in ("open", "openas"):
                 c = op[1] if k == "open" else ahb[op[1]][0]
-                hs.append([c, staged[c] if c in staged else {}, True])     # alias of the staged object, or a private one
+                if c in staged:
+                    hs.append([c, staged[c], True])                        # alias of the staged object
+                else:
+                    ov = {}
+                    objbase[id(ov)] = dict(committed.get(c, {}))          # private: its trie is the storage root of now
+                    keep.append(ov)
+                    hs.append([c, ov, True])
+            elif k == "update":
+                unstaged = True
+                # Update flushes every staged buffer into its storage trie (the buffers are kept until Commit)
+                for c, ov in staged.items():
+                    b = objbase.setdefault(id(ov), dict(committed.get(c, {})))
+                    for kk, vv in ov.items():
+                        if vv is None:
+                            b.pop(kk, None)
+                        else:
+                            b[kk] = vv
             elif k in ("set", "del"):
                 hs[op[1]][1][op[2]] = op[3] if k == "set" else None
             elif k == "stage":
@@ -657,16 +682,20 @@ def run(ctx):
                 hs, ctoks, ahb = [], [], []
             elif k in ("commit", "apply"):                                # always preceded by update in disciplined traces
                 for c, ov in staged.items():
-                    base_c = committed.setdefault(c, {})
-                    for kk, vv in ov.items():
-                        if vv is None:
-                            base_c.pop(kk, None)
-                        else:
-                            base_c[kk] = vv
+                    b = objbase.setdefault(id(ov), dict(committed.get(c, {})))
+                    if k == "apply":                                      # Apply = Update + Commit
+                        for kk, vv in ov.items():
+                            if vv is None:
+                                b.pop(kk, None)
+                            else:
+                                b[kk] = vv
+                    committed[c] = dict(b)                               # what the last Update put into the storage trie
                     ov.clear()
                 hist.append((dict(vis), {c: dict(m) for c, m in committed.items()}))
+                unstaged = False
             if k in ("setroot", "reopenat"):
                 vis, committed = dict(hist[op[1]][0]), {c: dict(m) for c, m in hist[op[1]][1].items()}
+                objbase = {}
             if k == "acreate" and op[1] in (0, 1) and (op[1] in vis_before) and nah != nah_before:
                 pred_fail.append(("C12:create-existing", "CreateAccountState handed out a handle for an account that exists",
                                   {"ops": full[: si + 1]}))
@@ -708,7 +737,7 @@ def run(ctx):
                                   {"ops": full[: si + 1], "got": of[si].get("last"), "expected": codes[op[1]]}))
                 break
             if k in ("reopen", "reopenat", "apply"):
-                staged, sframes, hs, ctoks, frames, sfr, ahb = {}, [], [], [], [], [], []
+                staged, sframes, hs, ctoks, frames, sfr, ahb, objbase, keep = {}, [], [], [], [], [], [], {}, []
             # ---- compare: accounts
             sec, pos, seen_acc = of[si].get("a") or [], 0, {}
             for ai in range(len(UA)):
@@ -741,8 +770,9 @@ def run(ctx):
                 if not h[2]:
                     bad_h = (hi, "live", "dead")
                 pos += 2                                                  # live flag, revision
+                tb = objbase.get(id(h[1]), committed.get(h[0], {}))
                 for kk in range(len(UK)):
-                    want = h[1][kk] if kk in h[1] else committed.get(h[0], {}).get(kk)
+                    want = h[1][kk] if kk in h[1] else tb.get(kk)
                     if sec[pos] == 0:
                         got = None
                         pos += 1
@@ -752,15 +782,16 @@ def run(ctx):
                     if got != want and not bad_h:
                         bad_h = (hi, UK[kk], got, want)
                 for kk in range(len(UK)):                                 # HasKey: indexed in the buffer (a buffered
-                    want_has = 1 if (kk in h[1] or kk in committed.get(h[0], {})) else 0   # delete counts) or in the trie
+                    want_has = 1 if (kk in h[1] or kk in tb) else 0                       # delete counts) or in the trie
                     if sec[pos] != want_has and not bad_h:
                         bad_h = (hi, "HasKey " + UK[kk], sec[pos], want_has)
                     pos += 1
                 for kk in range(len(UK)):                                 # GetInitialData = committed value
-                    want0 = committed.get(h[0], {}).get(kk)
+                    want0 = tb.get(kk)
                     got0 = None if sec[pos] == 0 else sec[pos + 1]
                     pos += 1 if sec[pos] == 0 else 2
-                    if got0 != want0 and not bad_h:
+                    # (a value Update put into the trie whose bytes Commit has not staged yet reads back empty)
+                    if got0 != want0 and not (got0 == 0 and want0 is not None and unstaged) and not bad_h:
                         bad_h = (hi, "initial " + UK[kk], got0, want0)
             if bad_h:
                 pred_fail.append(("C12:stale-storage-read", "a contract storage read does not return the latest non-reverted write",
@@ -772,6 +803,16 @@ def run(ctx):
 
     for pi, (full, erased, g) in enumerate(pairs):
         eval_pair(full, erased, g, results[base + pi], results[base + len(pairs) + pi])
+    # hand-written disciplined traces of the corpus go through the same direct predicates
+    for (name, c), ops, obs in zip(corpus, ctraces, cres):
+        if (c.get("expect") or {}).get("kind") == "disciplined":
+            class _G:
+                spans = []
+            nb = len(pred_fail)
+            eval_pair(ops, ops, _G, obs, obs)
+            for i in range(nb, len(pred_fail)):
+                k_, w_, r_ = pred_fail[i]
+                pred_fail[i] = (k_, w_ + " (corpus %s)" % name, dict(r_, corpus=name))
 
     # ---- model / implementation correspondence
     call = ctraces + traces
